@@ -1,10 +1,9 @@
 /-
   The size invariant of a bitmap: the stored size covers every stored segment of the generation a reader sees
-  (`SizeOK`).  Established by the SETBIT that starts a generation (fresh-generation proviso), kept by every later SETBIT on
-  the key and by every SETBIT on another key.  Under it the whole-key BITCOUNT of `BitCountV2` AS THE CODE IS never panics
-  and is right: no stored segment lies behind the segment of the last byte.
+  (`SizeOK`).  Established by the SETBIT that starts a generation — from size 0 (fix 0ad0963), under the fresh-generation
+  proviso —, kept by every later SETBIT on the key and by every SETBIT on another key.  A generation that starts on a fresh
+  generation has exactly the size a never-used key gets (`sizeAfter_fresh`).
 -/
-import ZanVerif.Data.BitCode
 import ZanVerif.Data.BitRead
 
 namespace Z.BitExec
@@ -58,23 +57,25 @@ theorem SizeOK_setbit_self (pol : Pol) {m : List KV} (W : WF m) (ts : Int) (tabl
     (hnc : ok = true ∨ get m (strK table rk) = none)
     (hold : ∀ (j : Nat) (v : Bytes), j < 9007199254740992 →
       get m (segK table (vkey pol rk (wHdr pol h ex ts).ver) (Gen.cBitmapSegBytes * (j : Int))) = some v →
-      Gen.cBitmapSegBytes * (j : Int) + v.length ≤ size0) :
+      Gen.cBitmapSegBytes * (j : Int) + v.length ≤ startSize size0 ok) :
     SizeOK pol (setbit pol m ts table rk offset on).1 table rk := by
   intro t h' ex' size' hm' j v hj hg
   have hs := W.sorted
   -- unfold what SETBIT wrote (as in `setbit_spec`)
-  have hconv : (if ok = true then Conv.done m size0 else convert m table rk size0) = Conv.done m size0 := by
-    rcases hnc with h1 | h1
-    · rw [if_pos h1]
-    · by_cases hok : ok = true
-      · rw [if_pos hok]
-      · rw [if_neg hok]; unfold convert; rw [h1]
+  have hconv : startOf m table rk size0 ok = (m, startSize size0 ok) := by
+    unfold startOf startSize
+    by_cases hok : ok = true
+    · rw [if_pos hok, if_pos hok]
+    · rw [if_neg hok, if_neg hok]
+      rcases hnc with h1 | h1
+      · exact absurd h1 hok
+      · unfold convert; rw [h1]
   generalize hH : wHdr pol h ex ts = H at hold
   generalize hbk : segK table (vkey pol rk H.ver) (Gen.bitSetIndex offset) = bmk
   have hne : bmk ≠ metaK table rk := by rw [← hbk]; exact segK_ne_metaK _ _ _ _ _
   have heq : (setbit pol m ts table rk offset on).1 =
       put (put m bmk (segAfter ((get m bmk).getD []) offset on)) (metaK table rk)
-        (encodeMeta pol { H with user := some (metaUser (sizeAfter ((get m bmk).getD []) offset size0) ts) }) := by
+        (encodeMeta pol { H with user := some (metaUser (sizeAfter ((get m bmk).getD []) offset (startSize size0 ok)) ts) }) := by
     unfold setbit
     rw [if_neg (by rw [valueGuard on hv]; simp), if_neg (by rw [offsetGuard' offset (by omega) ho]; simp), hm]
     simp only
@@ -93,9 +94,10 @@ theorem SizeOK_setbit_self (pol : Pol) {m : List KV} (W : WF m) (ts : Int) (tabl
       have hp := (Z.Coll.get_eq_some_iff W.sorted _ _).mp hgm
       obtain ⟨_, _, _, _, _, _, _, hl⟩ := W.seg _ hp (by rw [← hbk]; exact segK_head _ _ _)
       exact hl
-  have hle := sizeAfter_le ((get m bmk).getD []) offset size0 (by omega) ho hseg
-  have hge := sizeAfter_ge ((get m bmk).getD []) offset size0
-  have hsz : inI64 (sizeAfter ((get m bmk).getD []) offset size0) := by unfold inI64 at *; omega
+  have hle := sizeAfter_le ((get m bmk).getD []) offset (startSize size0 ok) (by omega) ho hseg
+  have hge := sizeAfter_ge ((get m bmk).getD []) offset (startSize size0 ok)
+  have hss : inI64 (startSize size0 ok) := by unfold startSize; split; exact hsin; unfold inI64; omega
+  have hsz : inI64 (sizeAfter ((get m bmk).getD []) offset (startSize size0 ok)) := by unfold inI64 at *; omega
   have hwritten := bmeta_of_written pol _ table rk H _ ts hokH hsz
     (show get (put (put m bmk (segAfter ((get m bmk).getD []) offset on)) (metaK table rk) _) (metaK table rk) = _ by
       rw [get_put2 hs _ _ _ _ _ hne, if_pos rfl]) t
@@ -134,7 +136,7 @@ theorem SizeOK_setbit_other (pol : Pol) {m : List KV} (hs : Sorted m) (ts : Int)
     (hnc : ok = true ∨ get m (strK table rk) = none) (hc : Gen.cTableStartSep ∉ table)
     (table' rk' : Bytes) (ht' : table'.length < 65536) (hc' : Gen.cTableStartSep ∉ table') (hne : ¬ (table' = table ∧ rk' = rk))
     (S : SizeOK pol m table' rk') : SizeOK pol (setbit pol m ts table rk offset on).1 table' rk' := by
-  obtain ⟨m', size2, heq, _, _, _, _, hframe, _⟩ :=
+  obtain ⟨m', size2, heq, _, _, _, _, _, hframe, _⟩ :=
     setbit_spec pol hs ts table rk offset on ht hts hv ho h ex size0 ok hm hnc
   rw [heq]
   have K := sameKeys_other pol m m' table rk table' rk' _ _ ht ht' hc hc' ⟨_, rfl⟩ hframe hne
@@ -143,78 +145,21 @@ theorem SizeOK_setbit_other (pol : Pol) {m : List KV} (hs : Sorted m) (ts : Int)
   rw [K.hseg] at hg
   exact S t h' ex' size' hm' j v hj hg
 
-/-! ### the whole-key BITCOUNT of the code -/
+theorem grow_nil_length (bo : Nat) : (grow [] bo).length = bo + 1 := by
+  unfold grow Gen.bitGrowNeeded Gen.bitGrowFar Gen.bitGrowFarSize
+  simp only [List.length_nil, List.nil_append]
+  rw [if_pos (by simp), if_pos (by simp), List.length_replicate]
+  omega
 
-theorem foldlG_all_ok (f : KV → BOut Nat) (L : List KV) (h : ∀ p ∈ L, ∃ c, f p = .ok c) :
-    ∀ acc : Nat, ∃ n, L.foldl (countStepG f) (.ok acc) = .ok n := by
-  induction L with
-  | nil => intro acc; exact ⟨acc, rfl⟩
-  | cons p t ih =>
-    intro acc
-    obtain ⟨c, hc⟩ := h p List.mem_cons_self
-    rw [List.foldl_cons, countStepG_ok f acc c p hc]
-    exact ih (fun q hq => h q (List.mem_cons_of_mem _ hq)) (acc + c)
-
-/-- a range that starts at byte 0 never panics: the start cut is 0 -/
-theorem bitcount_from_zero_ok (pol : Pol) (m : List KV) (now : Int) (table rk : Bytes) (h : Hdr) (ex : Bool) (size : Int)
-    (hm : bmeta pol m now table rk = .mk h ex size true) (start stop : Int)
-    (hz : (Gen.getRange start stop size).1 = 0) : ∃ n, bitcount pol m now table rk start stop = .ok n := by
-  unfold bitcount
-  rw [hm]
-  simp only [Bool.not_true, Bool.false_eq_true, if_false]
-  generalize hr : Gen.getRange start stop size = r at hz
-  obtain ⟨s, e⟩ := r
-  simp only at hz ⊢
-  subst hz
-  by_cases hgt : (0 : Int) > e
-  · rw [if_pos hgt]; exact ⟨0, rfl⟩
-  · rw [if_neg hgt]
-    have : ∃ n, countLoop 0 e (scan m (segK table (vkey pol rk h.ver) (Gen.bitCountStartI 0 * Gen.cBitmapSegBytes)) (stopK table (vkey pol rk h.ver))) = .ok n := by
-      apply foldlG_all_ok
-      intro p _
-      have hc0 : (cutOf 0 e (idxOf p.1) p.2).1 = 0 := by
-        unfold cutOf
-        simp only
-        split
-        · rfl
-        · rfl
-      refine ⟨popcount ((p.2.drop (cutOf 0 e (idxOf p.1) p.2).1).take ((cutOf 0 e (idxOf p.1) p.2).2 - (cutOf 0 e (idxOf p.1) p.2).1)), ?_⟩
-      unfold segCount
-      rw [if_neg (by rw [hc0]; omega)]
-    obtain ⟨n, hn⟩ := this
-    exact ⟨(n : Int), by rw [hn]; rfl⟩
-
-theorem sum_map_zero {α : Type} (L : List α) (f : α → Nat) (h : ∀ a ∈ L, f a = 0) : (L.map f).sum = 0 := by
-  induction L with
-  | nil => rfl
-  | cons a t ih =>
-    rw [List.map_cons, List.sum_cons, h a List.mem_cons_self, ih (fun b hb => h b (List.mem_cons_of_mem _ hb))]
-
-/-- under the size invariant nothing that holds a bit lies behind the segment of the LAST byte: the surplus of
-    `bitcount_ok_overcount` is 0 for every range that ends at the last byte (end = -1, or any end ≥ size - 1) -/
-theorem behind_last_byte_zero (pol : Pol) {m : List KV} (W : WF m) (table rk : Bytes) (ht : table.length < 65536)
-    (now : Int) (h : Hdr) (ex : Bool) (size : Int) (hm : bmeta pol m now table rk = .mk h ex size true)
-    (S : SizeOK pol m table rk) (s : Int) (hs0 : 0 ≤ s) (hs1 : s < size) :
-    (((countRange pol m table rk h s).filter
-      (fun p => !decide (idxOf p.1 ≤ Gen.bitCountStopI (size - 1) * Gen.cBitmapSegBytes))).map (fun p => popcount p.2)).sum = 0 := by
-  apply sum_map_zero
-  intro p hp
-  obtain ⟨hpr, hbehind⟩ := List.mem_filter.mp hp
-  simp only [Bool.not_eq_true', decide_eq_false_iff_not] at hbehind
-  have hsz := bmeta_size_lt pol m now table rk h ex size true hm
-  obtain ⟨sN, rfl⟩ := Int.eq_ofNat_of_zero_le hs0
-  unfold countRange at hpr
-  rw [startI_nat, Int.mul_comm] at hpr
-  obtain ⟨j, _, hj, hk, _⟩ := scan_seg W table _ ht (sN / 1024) (by omega) p hpr
-  have hget : get m p.1 = some p.2 := Z.Coll.get_of_mem W.sorted (mem_scan.mp hpr).1
-  rw [hk] at hget
-  have hb := S now h ex size hm j p.2 hj hget
-  rw [hk, idxOf_segK _ _ (inI64_seg j hj)] at hbehind
-  obtain ⟨eN, heN⟩ := Int.eq_ofNat_of_zero_le (show 0 ≤ size - 1 by omega)
-  rw [heN, stopI_nat, segBytes_val] at hbehind
-  rw [segBytes_val] at hb
-  have : p.2.length = 0 := by omega
-  have : p.2 = [] := List.length_eq_zero_iff.mp this
-  rw [this]; rfl
+/-- the size a SETBIT gives a generation that holds nothing yet: the end of the segment it writes — what a never-used key gets -/
+theorem sizeAfter_fresh (offset : Int) (h0 : 0 ≤ offset) :
+    sizeAfter [] offset 0 = Gen.bitSetIndex offset + ((byteOffOf offset : Nat) : Int) + 1 := by
+  have hi : 0 ≤ Gen.bitSetIndex offset := by rw [setIndex_eq offset h0, segBytes_val]; omega
+  unfold sizeAfter
+  rw [grow_nil_length]
+  unfold Gen.bitGrowNeeded Gen.bitSizeGrows Gen.bitSizeNew
+  simp only [List.length_nil]
+  rw [if_pos (by simp only [Bool.and_eq_true, decide_eq_true_eq]; omega)]
+  omega
 
 end Z.BitExec
